@@ -211,9 +211,9 @@ func (i *interpreter) callSpecial(fr *frame, fn *ssa.Function, args []value) (va
 		}
 	}
 	full := fn.String()
-	if ov, ok := i.overrides[full]; ok && ov != fn {
+	if ov, ok := i.overrides[full]; ok && ov != value(fn) {
 		i.w.stubs["override "+full]++
-		return callSSA(i, fr.caller, 0, ov, args, nil), true
+		return call(i, fr.caller, 0, ov, args), true
 	}
 	if h, ok := specials[full]; ok {
 		i.w.stubs[full]++
